@@ -11,9 +11,17 @@
   * `u16` quantities are `Nat`s; every `u16` operation of the source that can overflow is guarded
     and yields `Err.panic` (the harness is built with overflow checks), saturating subtraction is
     `Nat` subtraction.
-  * double → decimal digit generation (`mul_add`/`floor`/`%`/`log10`/`powf`) is NOT modelled: a
-    number carries the answers of that pipeline (`Num.fix`, `Num.sci`, `Num.exp`) as oracle data.
-    The integer conversions need no oracle.
+  * a number is its exact value: `Num.mag` = |value| · 2^1074 (every finite double is an integer
+    multiple of 2^-1074).
+  * double → decimal digit generation is delegated by the code to Rust's float formatting
+    (`format!("{:.*}", precision, n.abs())`, `format!("{:.*e}", precision, n.abs())`, i.e.
+    core::fmt::float / flt2dec).  That library code is NOT modelled: its answers are PARAMETERS of
+    the model (`Num.rfix`, `Num.rsci` : precision ↦ returned text).  What the code does with the
+    returned text (split at `.` / `e`, exponent parse, sign, padding, stripping) is modelled.
+    The assumption under which the float theorems hold — the text is the exact decimal expansion
+    of the double, correctly rounded half-even — is `RustFmtExact` (Proofs/FormatFloat.lean) and is
+    validated against the exact reference `FormatSpec.rustFixed/rustSci` by the harness.
+    The integer conversions need no parameter.
 -/
 import JrsVerif.Generated.FormatTable
 
@@ -70,14 +78,13 @@ inductive Err where
   | type           -- TypeError / fractional `*` / %c of a wrong-length string
   | codepoint      -- InvalidUnicodeCodepointGot
   | panic          -- a Rust panic site
-  | oracle         -- the digit oracle was not supplied (driver input error, never the code)
   deriving Repr, DecidableEq, Inhabited
 
 def Err.name : Err → String
   | .truncated => "truncated" | .unknownConv => "unknownConv" | .tooLarge => "tooLarge"
   | .notEnough => "notEnough" | .tooMany => "tooMany" | .starObj => "starObj"
   | .keysRequired => "keysRequired" | .noField => "noField" | .notObj => "notObj"
-  | .type => "type" | .codepoint => "codepoint" | .panic => "panic" | .oracle => "oracle"
+  | .type => "type" | .codepoint => "codepoint" | .panic => "panic"
 
 abbrev R (α : Type) := Except Err α
 
@@ -199,22 +206,38 @@ def parseCodes (s : List Char) : R (List Elem) := parseCodesF (s.length + 1) s
 
 /-! ## values -/
 
-/-- answers of the double → decimal pipeline of `render_float` for one precision:
-    `whole = floor(numerator / denominator) as i64`, `frac = (floor(numerator) % denominator) as i64` -/
+/-- decimal digit data of one number at one precision `q`: the integer part and the `q`-digit
+    fraction (as a number below 10^q) -/
 structure FDig where
   whole : Nat
   frac : Nat
   deriving Repr, DecidableEq, Inhabited
 
-/-- a finite double as seen by the formatter -/
+/-- 2^1074: every finite double is an integer multiple of 2^-1074 -/
+def U : Nat := 2 ^ 1074
+
+/-- a finite double as seen by the formatter: its exact value, and what Rust's float formatting
+    returns for its absolute value (parameters, see the header) -/
 structure Num where
-  neg : Bool                 -- value < 0.0
-  whole : Nat                -- floor |value|   (exact, unbounded)
-  fracNZ : Bool := false     -- |value| has a non-zero fractional part
-  exp : Int := 0             -- oracle: floor(log10 |value|), 0 for 0
-  fix : List (Nat × FDig) := []   -- oracle: precision ↦ digits of value
-  sci : List (Nat × FDig) := []   -- oracle: precision ↦ digits of value / 10^exp
-  deriving Repr, Inhabited
+  neg : Bool                              -- value < 0.0
+  mag : Nat                               -- |value| · 2^1074  (exact)
+  rfix : Nat → List Char := fun _ => []   -- precision ↦ `format!("{:.*}", precision, value.abs())`
+  rsci : Nat → List Char := fun _ => []   -- precision ↦ `format!("{:.*e}", precision, value.abs())`
+  deriving Inhabited
+
+/-- floor |value| (exact, unbounded) -/
+def Num.whole (n : Num) : Nat := n.mag / U
+
+/-- |value| has a non-zero fractional part -/
+def Num.fracNZ (n : Num) : Bool := n.mag % U != 0
+
+/-- the number with the IEEE-754 binary64 bit pattern `bits` (finite patterns only), without
+    formatter answers -/
+def Num.ofBits (bits : Nat) : Num :=
+  let biased := (bits / 2 ^ 52) % 2048
+  let fraction := bits % 2 ^ 52
+  let mag := if biased = 0 then fraction else (fraction + 2 ^ 52) * 2 ^ (biased - 1)
+  { neg := decide (bits / 2 ^ 63 % 2 = 1) && decide (mag ≠ 0), mag := mag }
 
 inductive Val where
   | num (n : Num) (disp : List Char)
@@ -248,12 +271,10 @@ def digitsRevLoop (radix : Nat) : Nat → Nat → List Nat
 def digitsRev (radix iv : Nat) : List Nat :=
   if iv = 0 then [0] else digitsRevLoop radix iv iv
 
-/-- `render_integer`; `iv` is the integer part of the (non-negative) double.  `integer_digits`
-    expands it exactly (base-2^32 limbs divided by the radix), so no machine-integer bound applies:
-    the digits are those of the repeated `% radix`, `/ radix` loop on the exact integer. -/
-def renderInteger (neg : Bool) (iv : Nat) (padding precision : Nat) (blank sign : Bool)
-    (radix : Nat) (zeroPrefix : List Char) (prefixInPadding caps : Bool) : R (List Char) :=
-  let digits := digitsRev radix iv
+/-- `render_digits`: sign, prefix, zero padding in front of the digits (most significant first;
+    ASCII, so `digits.len()` is the number of characters) -/
+def renderDigits (neg : Bool) (digits : List Char) (padding precision : Nat) (blank sign : Bool)
+    (zeroPrefix : List Char) (prefixInPadding : Bool) : R (List Char) :=
   let zp := padding - (if neg || blank || sign then 1 else 0)
   let prefLen := zeroPrefix.length
   let dl := digits.length % (U16_MAX + 1)                    -- `digits.len() as u16`
@@ -261,7 +282,15 @@ def renderInteger (neg : Bool) (iv : Nat) (padding precision : Nat) (blank sign 
   if sub2 > U16_MAX then .error .panic else
   let zp2 := (max (zp - (if prefixInPadding then 0 else prefLen)) precision) - sub2
   let signStr := if neg then ['-'] else if sign then ['+'] else if blank then [' '] else []
-  .ok (signStr ++ zeroPrefix ++ List.replicate zp2 '0' ++ digits.reverse.map (digitChar caps))
+  .ok (signStr ++ zeroPrefix ++ List.replicate zp2 '0' ++ digits)
+
+/-- `render_integer`; `iv` is the integer part of the (non-negative) double.  `integer_digits`
+    expands it exactly (base-2^32 limbs divided by the radix), so no machine-integer bound applies:
+    the digits are those of the repeated `% radix`, `/ radix` loop on the exact integer. -/
+def renderInteger (neg : Bool) (iv : Nat) (padding precision : Nat) (blank sign : Bool)
+    (radix : Nat) (zeroPrefix : List Char) (prefixInPadding caps : Bool) : R (List Char) :=
+  renderDigits neg ((digitsRev radix iv).reverse.map (digitChar caps)) padding precision blank sign
+    zeroPrefix prefixInPadding
 
 def renderDecimal (neg : Bool) (iv padding precision : Nat) (blank sign : Bool) : R (List Char) :=
   renderInteger neg iv padding precision blank sign 10 [] false false
@@ -276,33 +305,74 @@ def renderHex (neg : Bool) (iv padding precision : Nat) (alt blank sign caps : B
 
 def trimZeros (s : List Char) : List Char := (s.reverse.dropWhile (· = '0')).reverse
 
-/-- `render_float` given the digit oracle's answer `d` for (value, precision) -/
-def renderFloat (neg : Bool) (d : FDig) (padding precision : Nat) (blank sign ensurePt trailing : Bool) :
-    R (List Char) := do
+/-- `str::split_once(c)`: the text before and after the first `c` -/
+def splitOnce (c : Char) : List Char → Option (List Char × List Char)
+  | [] => none
+  | x :: xs =>
+    if x = c then some ([], xs)
+    else match splitOnce c xs with
+      | some (a, b) => some (x :: a, b)
+      | none => none
+
+/-- `render_float_digits`: `digits` is the text returned by `float_digits` (`ddd.ddd` / `ddd`) -/
+def renderFloatDigits (neg : Bool) (digits : List Char) (padding precision : Nat)
+    (blank sign ensurePt trailing : Bool) : R (List Char) := do
+  let (whole, frac) := (splitOnce '.' digits).getD (digits, [])
   let dotSize := if precision = 0 && !ensurePt then 0 else 1
   if dotSize + precision > U16_MAX then throw Err.panic       -- checked `u16` addition
   let padding := padding - (dotSize + precision)
-  let out ← renderDecimal neg d.whole padding 0 blank sign
-  if precision = 0 then
-    pure (if ensurePt then out ++ ['.'] else out)
-  else if trailing || d.frac > 0 then do
-    let fracStr ← renderDecimal false d.frac precision 0 false false
-    pure (out ++ ['.'] ++ (if trailing then fracStr else trimZeros fracStr))
-  else
-    pure (if ensurePt then out ++ ['.'] else out)
+  let out ← renderDigits neg whole padding 0 blank sign [] false
+  let frac := if trailing then frac else trimZeros frac        -- `trim_end_matches('0')`
+  pure (out ++ (if !frac.isEmpty || ensurePt then ['.'] else []) ++ frac)
 
-/-- `render_float_sci` given the oracle exponent and the mantissa's digits -/
-def renderFloatSci (neg : Bool) (exp : Int) (d : FDig) (padding precision : Nat)
+/-- `render_float`: `float_digits(n, precision)` is `n.rfix precision` -/
+def renderFloat (n : Num) (padding precision : Nat) (blank sign ensurePt trailing : Bool) :
+    R (List Char) :=
+  renderFloatDigits n.neg (n.rfix precision) padding precision blank sign ensurePt trailing
+
+/-- one step of a checked decimal accumulation -/
+def digitStep (acc : Option Nat) (c : Char) : Option Nat :=
+  match acc, digitVal c with
+  | some a, some d => some (a * 10 + d)
+  | _, _ => none
+
+/-- value of a run of ASCII digits; `none` when empty or not all digits -/
+def decimalValue? (s : List Char) : Option Nat :=
+  if s.isEmpty then none else s.foldl digitStep (some 0)
+
+/-- an optional leading `-` / `+` -/
+def splitSign : List Char → Bool × List Char
+  | '-' :: r => (true, r)
+  | '+' :: r => (false, r)
+  | s => (false, s)
+
+/-- `text.parse::<i32>().unwrap_or(0)`: optional sign, digits, value within `i32` -/
+def parseI32 (s : List Char) : Int :=
+  match decimalValue? (splitSign s).2 with
+  | none => 0
+  | some v =>
+    let r : Int := if (splitSign s).1 then -(v : Int) else (v : Int)
+    if r < -2147483648 || r > 2147483647 then 0 else r
+
+/-- `float_sci_digits`: the text `n.rsci precision` (`d.ddde-7`) split into mantissa and exponent -/
+def floatSciDigits (n : Num) (precision : Nat) : List Char × Int :=
+  let text := n.rsci precision
+  let (mantissa, exponent) := (splitOnce 'e' text).getD (text, ['0'])
+  (mantissa, parseI32 exponent)
+
+/-- `render_sci_digits` -/
+def renderSciDigits (neg : Bool) (mantissa : List Char) (exponent : Int) (padding precision : Nat)
     (blank sign ensurePt trailing caps : Bool) : R (List Char) := do
-  let expStr ← renderDecimal (exp < 0) exp.natAbs FMT_EXP_PADDING 0 false true
+  let expStr ← renderDecimal (exponent < 0) exponent.natAbs FMT_EXP_PADDING 0 false true
   let padding := padding - (expStr.length + 1)
-  let m ← renderFloat neg d padding precision blank sign ensurePt trailing
+  let m ← renderFloatDigits neg mantissa padding precision blank sign ensurePt trailing
   pure (m ++ [if caps then 'E' else 'e'] ++ expStr)
 
-def lookupDig (l : List (Nat × FDig)) (p : Nat) : R FDig :=
-  match l.lookup p with
-  | some d => .ok d
-  | none => .error .oracle
+/-- `render_float_sci` -/
+def renderFloatSci (n : Num) (padding precision : Nat) (blank sign ensurePt trailing caps : Bool) :
+    R (List Char) :=
+  let (mantissa, exponent) := floatSciDigits n precision
+  renderSciDigits n.neg mantissa exponent padding precision blank sign ensurePt trailing caps
 
 /-- `char::from_u32` -/
 def validScalar (n : Nat) : Bool := n < 0xD800 || (0xE000 ≤ n && n ≤ 0x10FFFF)
@@ -340,24 +410,24 @@ def formatBody (v : Val) (c : Code) (width : Nat) (precision : Option Nat) : R (
     renderHex (n.neg && n.whole ≥ 1) n.whole padding iprec fl.alt fl.blank fl.sign c.caps
   | .sci => do
     let n ← v.asNum
-    let d ← lookupDig n.sci fpprec
-    renderFloatSci n.neg n.exp d padding fpprec fl.blank fl.sign fl.alt true c.caps
+    renderFloatSci n padding fpprec fl.blank fl.sign fl.alt true c.caps
   | .flt => do
     let n ← v.asNum
-    let d ← lookupDig n.fix fpprec
-    renderFloat n.neg d padding fpprec fl.blank fl.sign fl.alt true
+    renderFloat n padding fpprec fl.blank fl.sign fl.alt true
   | .shorter => do
     let n ← v.asNum
     let fpprec := max fpprec 1
     -- rendered with padding 0; zero padding is applied afterwards (trailing zeros may be stripped)
+    let (mantissa, exponent) := floatSciDigits n (fpprec - 1)
     let tmp ←
-      if n.exp < -(FMT_G_LOW_EXP : Int) || n.exp ≥ (fpprec : Int) then do
-        let d ← lookupDig n.sci (fpprec - 1)
-        renderFloatSci n.neg n.exp d 0 (fpprec - 1) fl.blank fl.sign fl.alt fl.alt c.caps
+      if exponent < -(FMT_G_LOW_EXP : Int) || exponent ≥ (fpprec : Int) then
+        renderSciDigits n.neg mantissa exponent 0 (fpprec - 1) fl.blank fl.sign fl.alt fl.alt c.caps
       else do
-        let digitsBeforePt := max 1 (n.exp.toNat + 1)
-        let d ← lookupDig n.fix (fpprec - digitsBeforePt)
-        renderFloat n.neg d 0 (fpprec - digitsBeforePt) fl.blank fl.sign fl.alt fl.alt
+        -- `u16::try_from(exponent).map_or(1, |e| e + 1)`, checked `u16` addition
+        let digitsBeforePt := if 0 ≤ exponent && exponent ≤ (U16_MAX : Int) then exponent.toNat + 1 else 1
+        if digitsBeforePt > U16_MAX then throw Err.panic
+        if digitsBeforePt > fpprec then throw Err.panic         -- checked `u16` subtraction
+        renderFloat n 0 (fpprec - digitsBeforePt) fl.blank fl.sign fl.alt fl.alt
     pure (zeroFill padding tmp)
   | .chr =>
     match v with
